@@ -38,6 +38,18 @@ void harness(void) { g_atomic_loads = 0; t_bool f = nondet_bool(); h_global = no
   t_bool r = globallyStopped();
   __CPROVER_assert(g_atomic_loads == 1 && g_last_atomic_obj == (void *)&g_anon___globalStopFlag && r == f, "the global flag is read by one atomic load and returned");
   OSMT_REACH("return"); }\n'''),
+      Job('checkTheory.R', 'src/smtsolvers/TheoryIF.cc', 'CoreSMTSolver__checkTheory__bool_int_R', tier='R', header='contracts/C25/theory.h', enforce=False, pre_includes=('stubs/std_types.h',),
+          stubs=('opensmt::CoreSMTSolver::handleSat', 'opensmt::CoreSMTSolver::handleUnsat', 'opensmt::THandler::assertLits', 'opensmt::THandler::check', 'opensmt::CoreSMTSolver::okContinue',
+                 'opensmt::CoreSMTSolver::stopped'), opaque=('opensmt::CoreSMTSolver', 'opensmt::THandler', 'opensmt::SMTConfig'), min_obligations=3,
+          # statistics counters and unconstrained configuration doubles of the opaque solver object
+          expected_wrap=(('CoreSMTSolver__checkTheory__bool_int_R', 'in g_opaque_CoreSMTSolver_skipped_calls + 1l'), ('CoreSMTSolver__checkTheory__bool_int_R', 'in g_opaque_CoreSMTSolver_conflicts + 1ul'),
+                         ('CoreSMTSolver__checkTheory__bool_int_R', 'in *conflictC + 1'), ('CoreSMTSolver__checkTheory__bool_int_R', 'g_opaque_SMTConfig_sat_initial_skip_step')),
+          harness='''void harness(void) { h_stop = nondet_bool(); g_asserted = 0; g_checked = 0; h_sat_result = nondet_int(); t_bool complete = nondet_bool(); t_int cc = 0;
+  t_int r = CoreSMTSolver__checkTheory__bool_int_R((struct CoreSMTSolver *)0, complete, &cc);
+  if (complete && r == E_TPropRes_Decide)
+    __CPROVER_assert(g_asserted && g_checked && g_checked_complete && g_tres != E_TRes_UNSAT, "a complete theory check answers 'consistent' only after the theory solvers were consulted on the trail (whether or not a stop is pending)");
+  OSMT_REACH("return"); }\n''',
+          proves='a pending stop request cannot bypass the complete theory check'),
     ]
 
 def info(tier, results):
